@@ -111,6 +111,7 @@ class State:
     captured = None     # {module short name: ("ok", obj) | ("raised", err)} from regenerate_previous_results
     originals = None
     scans = 0
+    side_text = None
 
 
 S = State()
@@ -191,6 +192,7 @@ def teardown() -> None:
     if S.tmp and os.path.isdir(S.tmp):
         shutil.rmtree(S.tmp, ignore_errors=True)
     S.tmp = None
+    S.side_text = None
     logging.disable(logging.NOTSET)
 
 
@@ -226,8 +228,11 @@ def apply_options(case, record, **override):
     files = []
     if side["subregions"] or side["protoclusters"]:
         path = os.path.join(S.tmp, "sideload.json")
-        with open(path, "w", encoding="utf-8") as handle:
-            handle.write(AJ.dumps(C.sideload_document(case)))
+        text = AJ.dumps(C.sideload_document(case))
+        if S.side_text != text:
+            with open(path, "w", encoding="utf-8") as handle:
+                handle.write(text)
+            S.side_text = text
         files = [path]
     values = {
         "taxon": opts["taxon"], "hmmdetection_strictness": opts["strictness"],
@@ -294,6 +299,64 @@ def areas_view(results) -> list:
     for area in list(results.get_predicted_protoclusters()) + list(results.get_predicted_subregions()):
         out.extend(feature_view(f) for f in area.to_biopython())
     return out
+
+
+def content_of(obj, depth: int = 0):
+    """ the content of a results object as plain data: attributes of every reachable object, sets sorted, secmet
+        features by what they write to a record, CDS features by name. Two results objects with the same state hold
+        the same information, whatever their to_json chooses to save. """
+    from antismash.common.secmet.features import CDSFeature, Feature
+    if depth > 25:
+        return "<deep>"
+    if obj is None or isinstance(obj, (str, int, float, bool)):
+        return obj
+    if isinstance(obj, CDSFeature):
+        return ("CDS", obj.get_name())
+    if isinstance(obj, Feature):
+        return ("feature", [feature_view(f) for f in obj.to_biopython()])
+    if isinstance(obj, dict):
+        items = [(content_of(k, depth + 1), content_of(v, depth + 1)) for k, v in obj.items()]
+        return ("dict", sorted(items, key=repr))
+    if isinstance(obj, (set, frozenset)):
+        return ("set", sorted((content_of(v, depth + 1) for v in obj), key=repr))
+    if isinstance(obj, (list, tuple)):
+        values = [content_of(v, depth + 1) for v in obj]
+        if obj and all(isinstance(v, Feature) for v in obj):
+            values = sorted(values, key=repr)   # e.g. TTA markers: whole codons and split codons are kept apart when saved
+        return ("list", values)
+    if hasattr(obj, "parts") and hasattr(obj, "strand"):
+        return ("location", str(obj))
+    names = []
+    for cls in type(obj).__mro__:
+        names.extend(getattr(cls, "__slots__", ()) if not isinstance(getattr(cls, "__slots__", ()), str)
+                     else [getattr(cls, "__slots__")])
+    names.extend(getattr(obj, "__dict__", {}))
+    out = []
+    for name in sorted(set(names)):
+        if name.startswith("__") or not hasattr(obj, name):
+            continue
+        out.append((name, content_of(getattr(obj, name), depth + 1)))
+    return (type(obj).__name__, out)
+
+
+def state_difference(a, b, path="") -> str:
+    """ the attribute path of the first difference between two states """
+    if type(a) is not type(b):
+        return path or "/"
+    if isinstance(a, tuple) and len(a) == 2 and isinstance(a[0], str) and isinstance(a[1], list) \
+            and isinstance(b[1], list) and a[0] == b[0]:
+        kind, left, right = a[0], a[1], b[1]
+        if len(left) != len(right):
+            return f"{path}/{kind}(length)"
+        for x, y in zip(left, right):
+            if x != y:
+                if isinstance(x, tuple) and len(x) == 2 and isinstance(x[0], str) and kind not in ("list", "set", "dict", "feature"):
+                    return state_difference(x[1], y[1], f"{path}/{x[0]}")
+                if kind == "dict" and isinstance(x, tuple):
+                    return state_difference(x[1], y[1], f"{path}/{{}}")
+                return state_difference(x, y, f"{path}/{kind}[]")
+        return path
+    return path or "/"
 
 
 def diff_views(before: list, after: list) -> dict:
@@ -547,6 +610,14 @@ def run_case(ctx, case) -> None:
                 if before != after:
                     ctx.violate("predicted-areas-identical", dict(facts0, module=short, cycle=cycle,
                                                                   **diff_views(before, after)), case)
+        for short in saved_prev:
+            if cycle == 1 and short in results_prev and short in results_b:
+                ctx.count("op:object-state")
+                ok, states = ctx.guard("state-crash", case, lambda x, y: (content_of(x), content_of(y)), results_prev[short],
+                                       results_b[short])
+                if ok and states[0] != states[1]:
+                    ctx.violate("results-object-state-identical",
+                                dict(facts0, module=short, cycle=cycle, attribute=state_difference(*states)), case)
         saved_prev, view_prev, results_prev = saved_b, view_b, results_b
         record_last = record_b
 
@@ -838,7 +909,7 @@ def run(ctx):
     setup(ctx)
     try:
         rng = ctx.rng("cases")
-        for _ in ctx.cases(ctx.quota(280, 50000), every=4):
+        for _ in ctx.cases(ctx.quota(260, 50000), every=4):
             case = C.gen_case(rng)
             ctx.guard("harness-or-crash", case, run_case, ctx, copy.deepcopy(case))
     finally:
